@@ -94,6 +94,35 @@ def _grad_case(nnx, jnp):
   return None
 
 
+def _scan_carry_modules(nnx, jnp):
+  """Carry holding several graph nodes of the same class: after the scan every object ends in ITS OWN final state"""
+  class Acc(nnx.Module):
+    def __init__(self, v):
+      self.v = nnx.BatchStat(jnp.asarray(v))
+  for n_mods in (2, 3):
+    mods = [Acc(float(i + 1)) for i in range(n_mods)]
+    xs = jnp.asarray([1.0, 2.0, 3.0])
+
+    @nnx.scan(in_axes=(nnx.Carry, 0), out_axes=(nnx.Carry, 0))
+    def step(carry, x):
+      ms, tot = carry
+      for i, m in enumerate(ms):
+        m.v.value = m.v.value * (i + 2) + x          # a different recurrence per position
+      return (ms, tot + x), tot
+    (out_ms, tot), ys = step((tuple(mods), jnp.zeros(())), xs)
+    want = []
+    for i in range(n_mods):
+      v = float(i + 1)
+      for x in (1.0, 2.0, 3.0):
+        v = v * (i + 2) + x
+      want.append(v)
+    got_objs = [float(m.v.value) for m in mods]
+    got_ret = [float(m.v.value) for m in out_ms]
+    if any(abs(a - b) > 1e-3 for a, b in zip(got_objs, want)) or any(abs(a - b) > 1e-3 for a, b in zip(got_ret, want)) or any(a is not b for a, b in zip(out_ms, mods)):
+      return dict(carry_modules=n_mods), f'caller objects end at {got_objs}, returned carry at {got_ret} (identity kept: {[a is b for a, b in zip(out_ms, mods)]}); the loop leaves {want}'
+  return None, None
+
+
 def _grad_argnums_cases(nnx, jnp):
   """nnx.grad / value_and_grad over argnums {0, 1, (0,1), (1,0), (2,0), DiffState mixes}: the i-th result is
   the gradient w.r.t. the i-th REQUESTED argument, restricted to the selected Variables"""
@@ -211,6 +240,14 @@ def run(tier, seed):
         fails.append(dict(inputs=dict(check=tag), observed=msg, violated=tag))
         break
   if not fails:
+    cases += 2
+    try:
+      inp, msg = _scan_carry_modules(nnx, jnp)
+    except Exception as e:  # noqa
+      inp, msg = dict(check='scan-carry-modules'), f'raised {e!r}'[:300]
+    if msg:
+      fails.append(dict(inputs=inp, observed=msg, violated='scan-final-carry-objects'))
+  if not fails:
     cases += 22
     try:
       inp, msg = _grad_argnums_cases(nnx, jnp)
@@ -218,7 +255,7 @@ def run(tier, seed):
       inp, msg = dict(check='grad-argnums'), f'raised {e!r}'[:300]
     if msg:
       fails.append(dict(inputs=inp, observed=msg, violated='grad-equals-jax-grad'))
-  return dict(name=NAME, cases=cases, distinct=cases, bound='scan: StateAxes axis in {0,1,2,-1} x reverse (decorator form); vmap: axis in {0,1,2,-1}; grad / value_and_grad x 11 argnums / DiffState configurations over 3 module arguments; 4 aliasing conflicts',
+  return dict(name=NAME, cases=cases, distinct=cases, bound='scan: StateAxes axis in {0,1,2,-1} x reverse (decorator form); vmap: axis in {0,1,2,-1}; grad / value_and_grad x 11 argnums / DiffState configurations over 3 module arguments; 4 aliasing conflicts; scan Carry holding 2 / 3 modules of one class',
               failures=fails[:2], error=None)
 
 
